@@ -367,6 +367,44 @@ func runC07(c *eng.Ctx) {
 			}
 			if len(split) == 3 && identOK(split[0]) && inAlphabet {
 				splitSps := c07Spellings(split, false)
+				// the two colliding paths as QUANTIFIED collections, one after the other in this process and on one datum in which both
+				// are lists with different elements: each quantifier must range over its own list, whichever ran before
+				{
+					la, lb := leafID(path)+"|list", leafID(split)+"|list"
+					inner := NMap(TStr, TAny, str(path[1]), NSlice(TAny, str(la)), str(split[1]), NMap(TStr, TAny, str(split[2]), NSlice(TAny, str(lb), str(lb))))
+					qdatum := Build(NMap(TStr, TAny, str(path[0]), inner)).Interface()
+					evalQ := func(sel, lit string) int {
+						src := "any " + sel + " as x { x == " + RenderLit(lit) + " }"
+						ev, err := bexpr.CreateEvaluator(src)
+						if err != nil {
+							return -2
+						}
+						c.R.Evaluations++
+						return cls3(observe(ev, qdatum))
+					}
+					for _, spA := range sps {
+						for _, spB := range splitSps {
+							for round := 0; round < 2; round++ {
+								for _, q := range []struct {
+									sel, lit string
+									want     int
+								}{{spA, la, vT}, {spB, lb, vT}, {spA, lb, vF}, {spB, la, vF}} {
+									got := evalQ(q.sel, q.lit)
+									c.R.States++
+									c.R.Traces++
+									if got == -2 {
+										continue
+									}
+									if got != q.want {
+										c.Violate(eng.Violation{Kind: "colliding-quantified-collections-confused", Key: fmt.Sprintf("expr=any %s as x { x == %s } (after quantifying over %s / %s)", q.sel, RenderLit(q.lit), spA, spB), Coords: map[string]int{"p": pi},
+											Expected: v3name[q.want], Observed: v3name[got]})
+									}
+								}
+							}
+						}
+					}
+					c.Count("colliding-quantified-collections")
+				}
 				// outcomes are compared between spellings of the SAME template (the two templates differ in operand order, and
 				// `E and F` is not `F and E`)
 				for ti, tm := range []string{"%s is not empty and %s == " + RenderLit(leafID(split)), "%[2]s == " + RenderLit(leafID(split)) + " and %[1]s is not empty"} {
